@@ -87,6 +87,16 @@ def c_sharing():
     return None
 
 
+def c_nothing_to_update():
+    car = Car(engine=Engine(power=100, label="v6"))
+    for label, op in (("update_engine()", lambda: car.update_engine()), ("transform_engine()", lambda: car.transform_engine()),
+                      ("update_engine(_if=True)", lambda: car.update_engine(_if=True))):
+        d = op()
+        if d is not car and d.engine is car.engine:
+            return "Car(engine=Engine(...)).%s returns a copy that holds the receiver's own engine object" % label
+    return None
+
+
 def c_nested_failure():
     for cls in (Car, FCar):
         car = cls(engine=Engine(power=100, label="v6"))
@@ -192,7 +202,7 @@ def c_chain_through_unset_link():
     return None
 
 
-CHECKS = {"C01": [c_sharing, c_nested_failure, c_argument_container_untouched], "C06": [c_argument_container_untouched], "C02": [c_sharing], "C08": [c_sharing, c_reset_all], "C04": [c_nested_failure, c_failed_assignment_keeps_caches],
+CHECKS = {"C01": [c_sharing, c_nested_failure, c_argument_container_untouched], "C06": [c_argument_container_untouched], "C02": [c_sharing, c_nothing_to_update], "C08": [c_sharing, c_reset_all], "C04": [c_nested_failure, c_failed_assignment_keeps_caches],
           "C07": [c_nested_failure], "C05": [c_reset_all], "C11": [c_chain_through_unset_link, c_collection_invalidation, c_failed_assignment_keeps_caches]}
 
 REPLAY = '''#!/venv/bin/python
